@@ -57,6 +57,11 @@ pub struct Tx {
     pub inputs: Vec<TxIn>,
     pub outputs: Vec<TxOut>,
     pub locktime: u32,
+    /// 0: every CompactSize in its shortest form. Otherwise bits 0-1 select a width (1: 0xfd form, 2: 0xfe form, 3: 0xff form)
+    /// for the fields selected by bits 2-5 (input count, output count, scriptSig lengths, scriptPubKey lengths; none of the
+    /// four bits = all four). A value that needs a wider form than requested keeps its shortest form. Such bytes decode to the
+    /// same fields; txid and sizes are those of the bytes as stored.
+    pub wide: u8,
 }
 
 impl TxIn {
@@ -68,20 +73,49 @@ impl TxIn {
     }
 }
 
+pub fn compact_size_wide(n: u64, width: u8) -> Vec<u8> {
+    let short = compact_size(n);
+    let want = match width {
+        1 => 3,
+        2 => 5,
+        3 => 9,
+        _ => 1,
+    };
+    if short.len() >= want {
+        return short;
+    }
+    let mut v = vec![match want {
+        3 => 0xfd,
+        5 => 0xfe,
+        _ => 0xff,
+    }];
+    v.extend_from_slice(&n.to_le_bytes()[..want - 1]);
+    v
+}
+
 impl Tx {
+    fn cs(&self, n: u64, field_bit: u8) -> Vec<u8> {
+        let width = self.wide & 3;
+        let fields = self.wide >> 2;
+        if width != 0 && (fields == 0 || fields & field_bit != 0) {
+            compact_size_wide(n, width)
+        } else {
+            compact_size(n)
+        }
+    }
     fn body(&self, out: &mut Vec<u8>) {
-        out.extend(compact_size(self.inputs.len() as u64));
+        out.extend(self.cs(self.inputs.len() as u64, 1));
         for i in &self.inputs {
             out.extend_from_slice(&i.prev_txid);
             out.extend_from_slice(&i.prev_index.to_le_bytes());
-            out.extend(compact_size(i.script_sig.len() as u64));
+            out.extend(self.cs(i.script_sig.len() as u64, 4));
             out.extend_from_slice(&i.script_sig);
             out.extend_from_slice(&i.sequence.to_le_bytes());
         }
-        out.extend(compact_size(self.outputs.len() as u64));
+        out.extend(self.cs(self.outputs.len() as u64, 2));
         for o in &self.outputs {
             out.extend_from_slice(&o.value.to_le_bytes());
-            out.extend(compact_size(o.script.len() as u64));
+            out.extend(self.cs(o.script.len() as u64, 8));
             out.extend_from_slice(&o.script);
         }
     }
